@@ -29,7 +29,7 @@ def build(tier):
     shapes = ALL_SHAPES if tier == 'thorough' else QUICK_SHAPES
     # one clang run per translation unit / filter, before the walks fan out
     core.parallel([(lambda tu=tu, flt=flt: astload.dump(tu, flt)) for tu, flt in (
-        (residuals.TU, residuals.FLT), (residuals.STATE_TU, residuals.STATE_FLT), (scaling.TU, scaling.NORM_FLT), (scaling.TU, 'reducer_t'))])
+        (residuals.TU, residuals.FLT), (residuals.STATE_TU, residuals.STATE_FLT), (scaling.TU, scaling.NORM_FLT), (scaling.TU, 'reducer_t'), (scaling.UTIL_TU, scaling.UTIL_FLT))])
     jobs = []
     for (n, p, m) in shapes:
         for hasQ in (True, False):
